@@ -18,18 +18,31 @@ pub mod h_misc;
 /// `--concrete-playback=print`) into this file before running it.
 #[cfg(test)]
 mod playback {
+    #[cfg(not(verif_skip_h_ids))]
     use super::h_ids::*;
-    use super::h_varint::*;
+    #[cfg(not(verif_skip_h_misc))]
     use super::h_misc::*;
-    use crate::frame::verif_kani::*;
-    use crate::qpack::verif_kani::*;
-    use crate::stream_header::verif_kani::*;
-    use crate::stream::verif_kani::*;
-    use crate::settings::verif_kani::*;
-    use crate::capsule::verif_kani::*;
-    use crate::datagram::verif_kani::*;
-    use crate::headers::verif_kani::*;
-    use crate::session::verif_kani::*;
+    #[cfg(not(verif_skip_h_varint))]
+    use super::h_varint::*;
+    #[cfg(not(verif_skip_in_bytes_async))]
     use crate::bytes::r#async::verif_kani::*;
+    #[cfg(not(verif_skip_in_capsule))]
+    use crate::capsule::verif_kani::*;
+    #[cfg(not(verif_skip_in_datagram))]
+    use crate::datagram::verif_kani::*;
+    #[cfg(not(verif_skip_in_frame))]
+    use crate::frame::verif_kani::*;
+    #[cfg(not(verif_skip_in_headers))]
+    use crate::headers::verif_kani::*;
+    #[cfg(not(verif_skip_in_qpack))]
+    use crate::qpack::verif_kani::*;
+    #[cfg(not(verif_skip_in_session))]
+    use crate::session::verif_kani::*;
+    #[cfg(not(verif_skip_in_settings))]
+    use crate::settings::verif_kani::*;
+    #[cfg(not(verif_skip_in_stream))]
+    use crate::stream::verif_kani::*;
+    #[cfg(not(verif_skip_in_stream_header))]
+    use crate::stream_header::verif_kani::*;
     include!("/verif/.build/playback/current.rs");
 }
